@@ -435,6 +435,8 @@ func dischargeAll(obls []*Obl, timeoutMs int) {
 func (fx *FuncCtx) run() {
 	fd := fx.decl
 	st := &State{vars: map[types.Object]Val{}, heap: map[string]Term{}, written: tFalse}
+	st.allocTop = fx.declConst("alloc0", SInt)
+	st.assume(Gt(st.allocTop, IntLit(0)))
 	fx.params = map[string]Val{}
 	fx.paramObj = map[string]types.Object{}
 	bindParam := func(n *ast.Ident) {
@@ -448,6 +450,7 @@ func (fx *FuncCtx) run() {
 		}
 		fx.params[n.Name] = v
 		fx.paramObj[n.Name] = obj
+		fx.refFacts(st, v)
 		fx.bind(st, obj, v)
 	}
 	if fd.Recv != nil {
@@ -528,6 +531,17 @@ func (fx *FuncCtx) run() {
 				fx.oblige(ex.st, "panic.never", tFalse, ex.node, what)
 			}
 		case "return":
+			// vacuity guard: a return whose path condition is contradictory would
+			// discharge every postcondition
+			{
+				fx.covers++
+				q := fx.buildQuery(ex.st.hypTerms(), tFalse)
+				if r := solve(q, 4000, false); r.Status == "unsat" {
+					if con.Options["dead-return-ok"] != "true" {
+						fx.coverFail = append(fx.coverFail, fmt.Sprintf("%s: return at %s is unreachable under the contract (contradictory hypotheses?)", fx.short, shortPos(fx.pos(ex.node))))
+					}
+				}
+			}
 			if con.PanicsIff && fx.validT != nil {
 				fx.oblige(ex.st, "panic.must", *fx.validT, ex.node, "return requires valid arguments")
 			}
@@ -546,9 +560,10 @@ func (fx *FuncCtx) run() {
 				if en.Tag != "" && !fx.tagActive(en.Tag) {
 					continue
 				}
-				fx.oblige(ex.st, "post", fx.specBool(penv, en.Expr), ex.node, "ensures "+en.Src)
+				fx.obligeSplit(ex.st, "post", fx.specBool(penv, en.Expr), ex.node, "ensures "+en.Src)
 			}
 			fx.checkTypeInvariants(ex.st, penv, ex.node)
+			fx.checkHeapFrame(ex.st, ex.node)
 		}
 	}
 }
@@ -568,5 +583,19 @@ func (fx *FuncCtx) coverChecks(st *State) {
 	if fx.validT != nil {
 		check("valid", *fx.validT)
 		check("!valid", Not(*fx.validT))
+	}
+}
+
+// refFacts: references inside a received value denote allocated objects.
+func (fx *FuncCtx) refFacts(st *State, v Val) {
+	switch x := v.(type) {
+	case PtrV:
+		fx.refFact(st, x.Ref)
+	case MapV:
+		fx.refFact(st, x.Ref)
+	case StructV:
+		for _, f := range x.Fields {
+			fx.refFacts(st, f)
+		}
 	}
 }
